@@ -96,25 +96,29 @@ def rate_limited_sender(rng, tier):
     c = max(1, txdl - 1 - pre)
     ops = [{'op': 'layer', 'i': 0, 'addr': a, 'params': params}]
     rid = 0
-    for _ in range(rng.choice([2, 3])):
+    payloads = []
+    total = 0
+    for _ in range(rng.choice([2, 3, 4])):      # everything is queued up front: later First / Single Frames find the window already used
         rid += 1
         n = rng.choice([1, 3, 7, c + 3, 2 * c + 5, 3 * c + 1])
         payload = gen.rand_payload(rng, n)
+        payloads.append(payload)
         ops.append({'op': 'send', 'i': 0, 'id': rid, 'data': payload})
-        nframes = n // c + 2
-        bs = rng.choice([0, 0, 1, 2])
-        fid, ext, data = fc_frame(a, bs, 0)
-        for _k in range(nframes + 3):
-            ops.append({'op': 'process', 'i': 0})
-            if rng.random() < 0.7:
-                ops.append({'op': 'frame', 'i': 0, 'id': fid, 'ext': ext, 'data': data})
-                ops.append({'op': 'process', 'i': 0})
-            ops.append({'op': 'tick', 'dt': wns})
-        for _k in range(nframes + 3):       # make sure the transfer ends: a ContinueToSend and a full window per round
+        total += n // c + 2
+    bs = rng.choice([0, 0, 1, 2])
+    fid, ext, data = fc_frame(a, bs, 0)
+    for _k in range(total + 4):
+        ops.append({'op': 'process', 'i': 0})
+        if rng.random() < 0.7:
             ops.append({'op': 'frame', 'i': 0, 'id': fid, 'ext': ext, 'data': data})
             ops.append({'op': 'process', 'i': 0})
-            ops.append({'op': 'tick', 'dt': wns})
-            ops.append({'op': 'process', 'i': 0})
+        ops.append({'op': 'tick', 'dt': rng.choice([wns, wns, wns // 3])})
+    for _k in range(total + 4):       # make sure every transfer ends: a ContinueToSend and a full window per round
+        ops.append({'op': 'frame', 'i': 0, 'id': fid, 'ext': ext, 'data': data})
+        ops.append({'op': 'process', 'i': 0})
+        ops.append({'op': 'tick', 'dt': wns})
+        ops.append({'op': 'process', 'i': 0})
+    for payload in payloads:
         ops.append({'op': 'specseg', 'txdl': txdl, 'minlen': params.get('tx_data_min_length'),
                     'padding': params.get('tx_padding'), 'prefix': ref.tx_prefix(ref.half(a, 'tx')), 'data': payload})
     return {'ops': ops}
